@@ -209,9 +209,16 @@ class CkptFamily(common.Family):
     poison = []
     if kind in ('seq', 'multi') and rng.random() < 0.2:
       poison = sorted({rng.randrange(n) for _ in range(rng.choice([1, 1, 2]))})
+    # the remainder of a restored source is sharded again (a job resumed with
+    # another degree of parallelism): [i, n] applied after the first restore
+    reshard = None
+    if level == 'source' and kind in ('seq', 'multi') and not poison and \
+        rng.random() < 0.35:
+      k = rng.choice([1, 2, 3])
+      reshard = [rng.randrange(k), k]
     return {
         'spec': spec, 'level': level, 'kind': kind, 'shards': shards,
-        'files': files, 'poison': poison,
+        'files': files, 'poison': poison, 'reshard': reshard,
         # a second crash before any new checkpoint: the same loaded state
         # object is used for a second restore
         'reuse': rng.choice([0, 0, 0, 1, 2]),
@@ -323,6 +330,19 @@ class CkptFamily(common.Family):
           pass
       state = cloudpickle.loads(blob)
       tracked = mk()
+      if cfg.get('reshard') and g == 0:
+        # restore the data source itself, shard what is left, go on with that
+        i_, n_ = cfg['reshard']
+        ds2 = self._source(cfg, tracked).from_state(state).shard(i_, n_)
+        done = sum(len(x) for x in segments)
+        rest = ref[done:]
+        q_, r_ = divmod(len(rest), n_)
+        lo = sum(q_ + 1 if j < r_ else q_ for j in range(i_))
+        hi = lo + (q_ + 1 if i_ < r_ else q_)
+        ref = ref[:done] + rest[lo:hi]
+        sim.count('fault:resharded_after_restore')
+        it = iter(ds2)
+        continue
       fresh = self._make_iter(cfg, tracked)
       it = fresh.from_state(state)
       if cfg.get('reuse') and g == len(cfg['cuts']) - 1:
